@@ -211,7 +211,7 @@ impl SignBus for AdvBus {
         match reply {
             BusReply::Err => {
                 self.cx.fault("bus_error");
-                Err(Box::new(SimBusError("adversarial bus error")))
+                Err(crate::bus::bus_error(&self.cx, "adversarial bus error"))
             }
             BusReply::Msg(m) => Ok(m),
         }
@@ -255,58 +255,76 @@ impl Scenario for Adversary {
     fn run(&self, cx: &Cx) -> Result<(), Violation> {
         let addr = gens::address(cx);
         let t: SignType = gens::sign_type(cx);
-        let op = match cx.draw(8) {
-            0 | 1 => Op::Configure,
-            2 | 3 => Op::SendPages(gens::pages(cx, t, 3)),
-            4 => Op::ConfigureIfNeeded,
-            5 => Op::Show,
-            6 => Op::LoadNext,
-            _ => Op::ShutDown,
-        };
-        let items: Vec<Vec<u8>> = match &op {
-            Op::Configure | Op::ConfigureIfNeeded => vec![t.to_bytes().to_vec()],
-            Op::SendPages(p) => p.iter().map(|p| p.as_bytes().to_vec()).collect(),
-            _ => vec![],
-        };
-        let call = call_of(&op);
-        let model = ControllerModel::new(addr, call.clone(), items);
+        // 1-3 calls on ONE Sign object over ONE bus object: anything the controller carries
+        // from one call into the next is exercised too. Every call is judged on its own.
+        let ncalls = 1 + *cx.pick(&[0u64, 0, 1, 2]);
         let good_num = *cx.pick(&[19u64, 16, 10, 20, 18]);
-        let bus = Rc::new(RefCell::new(AdvBus { cx: cx.clone(), addr, model, judge: self.judge, good_num, turns: Vec::new(), in_progress_run: 0, cut: false }));
+        let dummy = ControllerModel::new(addr, Call::ShutDown, vec![]);
+        let bus = Rc::new(RefCell::new(AdvBus { cx: cx.clone(), addr, model: dummy, judge: self.judge, good_num, turns: Vec::new(), in_progress_run: 0, cut: false }));
         let sign = Sign::new(bus.clone(), addr, t);
-        cx.event("call", &(addr.0, t, op.code(), good_num));
-        cx.note(|| format!("controller({:#06x}, {t:?}).{}   [good-reply bias {good_num}/20]", addr.0, op.name()));
-        let out = ops::apply(&sign, &op);
-        cx.event("outcome", &out);
-        cx.note(|| format!("  -> {out:?}"));
         cx.set_nontrivial();
-        let b = bus.borrow();
-        cx.probe(&format!("call:{:?}:{:?}", call, out));
-        cx.distinct(stable_hash(&(call.clone(), b.turns.iter().map(|t| (stable_hash(&t.sent), reply_class(&t.reply, addr))).collect::<Vec<_>>())));
-        if b.turns.len() >= 10 {
-            cx.probe("conversation_ge_10_turns");
-        }
-        match self.judge {
-            Judge::Model => {
-                cx.verdict()?;
-                if !b.model.done() {
-                    cx.fail(
-                        format!("C10/stopped-early@{:?}", b.model.loc),
-                        format!("{call:?} returned {out:?} after {} messages, but the protocol prescribes {} next", b.turns.len(), b.model.expected().map(|m| show(&m)).unwrap_or_default()),
-                    );
-                } else if b.model.outcome.as_ref() != Some(&out) {
-                    cx.fail("C10/wrong-outcome", format!("{call:?} returned {out:?}, the protocol prescribes {:?}", b.model.outcome));
+        let mut whole: Vec<u64> = Vec::new();
+        for k in 0..ncalls {
+            let op = match cx.draw(8) {
+                0 | 1 => Op::Configure,
+                2 | 3 => Op::SendPages(gens::pages(cx, t, 3)),
+                4 => Op::ConfigureIfNeeded,
+                5 => Op::Show,
+                6 => Op::LoadNext,
+                _ => Op::ShutDown,
+            };
+            let items: Vec<Vec<u8>> = match &op {
+                Op::Configure | Op::ConfigureIfNeeded => vec![t.to_bytes().to_vec()],
+                Op::SendPages(p) => p.iter().map(|p| p.as_bytes().to_vec()).collect(),
+                _ => vec![],
+            };
+            let call = call_of(&op);
+            {
+                let mut b = bus.borrow_mut();
+                b.model = ControllerModel::new(addr, call.clone(), items);
+                b.turns.clear();
+                b.in_progress_run = 0;
+                b.cut = false;
+            }
+            cx.event("call", &(k, addr.0, t, op.code(), good_num));
+            cx.note(|| format!("call #{k}: controller({:#06x}, {t:?}).{}   [good-reply bias {good_num}/20]", addr.0, op.name()));
+            let out = ops::apply(&sign, &op);
+            cx.event("outcome", &out);
+            cx.note(|| format!("  -> {out:?}"));
+            let b = bus.borrow();
+            cx.probe(&format!("call:{:?}:{:?}", call, out));
+            if k > 0 {
+                cx.probe("later_call_on_same_sign_object");
+            }
+            whole.push(stable_hash(&(call.clone(), b.turns.iter().map(|t| (stable_hash(&t.sent), reply_class(&t.reply, addr))).collect::<Vec<_>>())));
+            if b.turns.len() >= 10 {
+                cx.probe("conversation_ge_10_turns");
+            }
+            match self.judge {
+                Judge::Model => {
+                    cx.verdict()?;
+                    if !b.model.done() {
+                        cx.fail(
+                            format!("C10/stopped-early@{:?}", b.model.loc),
+                            format!("call #{k} {call:?} returned {out:?} after {} messages, but the protocol prescribes {} next", b.turns.len(), b.model.expected().map(|m| show(&m)).unwrap_or_default()),
+                        );
+                    } else if b.model.outcome.as_ref() != Some(&out) {
+                        cx.fail("C10/wrong-outcome", format!("call #{k} {call:?} returned {out:?}, the protocol prescribes {:?}", b.model.outcome));
+                    }
+                    if b.model.polls >= 3 {
+                        cx.probe("polled_3_or_more_times");
+                    }
                 }
-                if b.model.polls >= 3 {
-                    cx.probe("polled_3_or_more_times");
+                Judge::Invariants if b.cut => {}
+                Judge::Invariants => {
+                    if let Err((class, detail)) = check_conversation(cx, addr, &call, &b.turns, &out) {
+                        cx.fail(format!("C11/{class}"), format!("call #{k} {call:?}: {detail}"));
+                    }
                 }
             }
-            Judge::Invariants if b.cut => {}
-            Judge::Invariants => {
-                if let Err((class, detail)) = check_conversation(cx, addr, &call, &b.turns, &out) {
-                    cx.fail(format!("C11/{class}"), format!("{call:?}: {detail}"));
-                }
-            }
+            cx.verdict()?;
         }
+        cx.distinct(stable_hash(&whole));
         cx.verdict()
     }
 }
